@@ -68,6 +68,9 @@ func fnExec(ctx *cmdContext, args map[string]any) (output respValue, err error) 
 
 	// check the watches; if anything has changed, return null
 	if isAbortedExecUnlocked(ctx.cs) {
+		// the transaction is over either way: back to normal mode, nothing watched
+		ctx.cs.watches = map[watchKey]uint64{}
+		ctx.cs.cmdQueue = nil
 		return
 	}
 
